@@ -155,6 +155,20 @@ def run(adds, with_unversioned, save_load, bundlify=False, interleave=True, star
             path = mstore.save_to_file("/save/out/bundle.json")
             mstore = M.MemoryStore(allow_custom=True)
             mstore.load_from_file(path)
+            if len(adds) >= 2:
+                # loading is adding: a store that already holds the first addition loads a file with the later ones (possibly other versions
+                # of the same id) and holds them all afterwards; loading the same file twice changes nothing
+                part, rest = M.MemoryStore(allow_custom=True), M.MemoryStore(allow_custom=True)
+                part.add(dict(ver(adds[0][0], adds[0][1])))
+                for (i, m, _f) in adds[1:]:
+                    rest.add(dict(ver(i, m)))
+                p2 = rest.save_to_file("/save/out/rest.json")
+                part.load_from_file(p2)
+                if not check_stores((part,), model, []):
+                    return False
+                part.source.load_from_file(p2)
+                if not check_stores((part,), model, []):
+                    return False
         return check_stores((fstore, mstore), model, extras)
     finally:
         F.os, F.io = saved
